@@ -186,14 +186,20 @@ pub fn check_c13(defs: &Vec<Vec<KeyCode>>, key: KeyCode, out: KeyCode) -> Result
 /// the other repeat form and the absorbing list: a Special repeat (modifiers, then a key - or, for a row, letters by column) overrides `disabled`
 #[derive(Clone, Debug, Default)] pub struct PExtra { pub special: Option<PSpec>, pub absorbing: Vec<PMod> }
 #[derive(Clone, Debug)] pub struct PSpec { pub mods: Vec<PMod>, pub key: KeyCode, pub letters: String, pub delay: i32, pub interval: i32 }
-fn jrepeat(x: &PExtra, disabled: bool, row: bool, always: bool) -> String {
+thread_local! { pub static STYLE: std::cell::Cell<u64> = std::cell::Cell::new(0); }
+/// equivalent spellings (C13 last clause): a non-zero style makes the writer choose, site by site, between a one-element array and the bare element
+/// (from, to, Special keys, absorbing) and between the cases of row / repeat names; style 0 is the canonical spelling used before
+fn sbit(st: &mut u64) -> bool { if *st == 0 { return false; } *st ^= *st << 13; *st ^= *st >> 7; *st ^= *st << 17; (*st >> 33) & 1 == 1 }
+fn wrap(items: Vec<String>, st: &mut u64) -> String { if items.len() == 1 && sbit(st) { items[0].clone() } else { format!("[{}]", items.join(",")) } }
+fn casev(name: &str, st: &mut u64) -> String { match (sbit(st), sbit(st)) { (false, _) => name.to_string(), (true, false) => name.to_lowercase(), (true, true) => name.to_uppercase() } }
+fn jrepeat(x: &PExtra, disabled: bool, row: bool, always: bool, st: &mut u64) -> String {
   let mut s = String::new();
   match &x.special {
     Some(sp) => { let mut k = jmods(&sp.mods); k.push(if row { format!("{{\"letters\":{}}}", serde_json::to_string(&sp.letters).unwrap()) } else { format!("\"{:?}\"", sp.key) });
-                  s.push_str(&format!(",\"repeat\":{{\"Special\":{{\"keys\":[{}],\"delay_ms\":{},\"interval_ms\":{}}}}}", k.join(","), sp.delay, sp.interval)); },
-    None => { if disabled { s.push_str(",\"repeat\":\"Disabled\""); } else if always { s.push_str(",\"repeat\":\"Normal\""); } },
+                  s.push_str(&format!(",\"repeat\":{{\"Special\":{{\"keys\":{},\"delay_ms\":{},\"interval_ms\":{}}}}}", wrap(k, st), sp.delay, sp.interval)); },
+    None => { if disabled { s.push_str(&format!(",\"repeat\":\"{}\"", casev("Disabled", st))); } else if always { s.push_str(&format!(",\"repeat\":\"{}\"", casev("Normal", st))); } },
   }
-  if !x.absorbing.is_empty() { s.push_str(&format!(",\"absorbing\":[{}]", jmods(&x.absorbing).join(","))); }
+  if !x.absorbing.is_empty() { s.push_str(&format!(",\"absorbing\":{}", wrap(jmods(&x.absorbing), st))); }
   s
 }
 const ANAMES: [&str; 3] = ["@p", "@q", "@r"];
@@ -211,14 +217,17 @@ fn qrow(i: usize) -> Vec<KeyCode> { let r = qrows(); match i { 0 => r[0].2.clone
 fn is_mod_key(k: KeyCode) -> bool { use KeyCode::*; matches!(k, LEFTSHIFT | RIGHTSHIFT | LEFTALT | RIGHTALT | LEFTCTRL | RIGHTCTRL | LEFTMETA | RIGHTMETA) }
 fn jmods(ms: &Vec<PMod>) -> Vec<String> { ms.iter().map(|m| match m { PMod::Alias(a) => format!("\"{}\"", ANAMES[*a]), PMod::Key(k) => format!("\"{:?}\"", k) }).collect() }
 pub fn program_json(p: &Vec<PItem>) -> String {
+  let mut st: u64 = STYLE.with(|c| c.get());
+  let st = &mut st;
   let mut ms: Vec<String> = Vec::new();
   for it in p { match it {
-    PItem::AliasDef { name, keys } => ms.push(format!("{{\"from\":[{}],\"to\":\"{}\"}}", keys.iter().map(|k| format!("\"{:?}\"", k)).collect::<Vec<_>>().join(","), ANAMES[*name])),
+    PItem::AliasDef { name, keys } => { let f = wrap(keys.iter().map(|k| format!("\"{:?}\"", k)).collect::<Vec<_>>(), st); let t = wrap(vec![format!("\"{}\"", ANAMES[*name])], st);
+      ms.push(format!("{{\"from\":{},\"to\":{}}}", f, if t.starts_with('[') { t } else { format!("\"{}\"", ANAMES[*name]) })) },
     PItem::Single { mods, key, to_mods, to_key, disabled, x } => { let mut f = jmods(mods); f.push(format!("\"{:?}\"", key)); let mut t = jmods(to_mods); t.push(format!("\"{:?}\"", to_key));
-      ms.push(format!("{{\"from\":[{}],\"to\":[{}]{}}}", f.join(","), t.join(","), jrepeat(x, *disabled, false, false))); },
-    PItem::Row { mods, row, to_mods, letters, disabled, x } => { let mut f = jmods(mods); f.push(format!("{{\"row\":\"{}\"}}", ROWNAMES[*row])); let mut t = jmods(to_mods); t.push(format!("{{\"letters\":{}}}", serde_json::to_string(letters).unwrap()));
-      ms.push(format!("{{\"from\":[{}],\"to\":[{}]{}}}", f.join(","), t.join(","), jrepeat(x, *disabled, true, false))); },
-    PItem::RepeatOnly { mods, key, disabled, x } => { let mut f = jmods(mods); f.push(format!("\"{:?}\"", key)); ms.push(format!("{{\"from\":[{}]{}}}", f.join(","), jrepeat(x, *disabled, false, true))); },
+      ms.push(format!("{{\"from\":{},\"to\":{}{}}}", wrap(f, st), wrap(t, st), jrepeat(x, *disabled, false, false, st))); },
+    PItem::Row { mods, row, to_mods, letters, disabled, x } => { let mut f = jmods(mods); f.push(format!("{{\"row\":\"{}\"}}", casev(ROWNAMES[*row], st))); let mut t = jmods(to_mods); t.push(format!("{{\"letters\":{}}}", serde_json::to_string(letters).unwrap()));
+      ms.push(format!("{{\"from\":{},\"to\":{}{}}}", wrap(f, st), wrap(t, st), jrepeat(x, *disabled, true, false, st))); },
+    PItem::RepeatOnly { mods, key, disabled, x } => { let mut f = jmods(mods); f.push(format!("\"{:?}\"", key)); ms.push(format!("{{\"from\":{}{}}}", wrap(f, st), jrepeat(x, *disabled, false, true, st))); },
   } }
   format!("{{\"mappings\":[{}]}}", ms.join(","))
 }
@@ -275,12 +284,15 @@ fn gen_extra(r: &mut Rng, mods: &Vec<PMod>, keypool: &[KeyCode], row: bool) -> P
   let mut x = PExtra::default();
   let sub = |r: &mut Rng| -> Vec<PMod> { let mut v: Vec<PMod> = mods.iter().filter(|_| r.below(2) == 0).cloned().collect(); if r.below(8) == 0 { v.push(PMod::Key(KeyCode::RIGHTALT)); } v };
   if r.below(3) == 0 {
-    let letters = if row { ["a", "ab", "x y", "Q", "", "abcd", " ;", "zzzzzz"][r.below(8)].to_string() } else { String::new() };
+    let letters = if row { if r.below(3) == 0 { rand_row_letters(r) } else { ["a", "ab", "x y", "Q", "", "abcd", " ;", "zzzzzz"][r.below(8)].to_string() } } else { String::new() };
     x.special = Some(PSpec { mods: sub(r), key: keypool[r.below(keypool.len())], letters, delay: [0, 100, 250][r.below(3)], interval: [0, 30][r.below(2)] });
   }
   if r.below(4) == 0 { x.absorbing = sub(r); }
   x
 }
+/// rare shapes: row letters drawn character by character, spaces and characters of two and three bytes included (a letter under a space of the output
+/// is never looked up, whatever it is; a count of bytes instead of letters shows only here)
+fn rand_row_letters(r: &mut Rng) -> String { let al = ['a', 'b', 'Q', ';', '~', ' ', ' ', ' ', '\u{e9}', '\u{b7}', '\u{20ac}']; (0..r.below(6)).map(|_| al[r.below(al.len())]).collect() }
 pub fn all_key_codes() -> Vec<KeyCode> { (0u32..1024).filter_map(|c| { let k: Option<KeyCode> = num_traits::FromPrimitive::from_u16(c as u16); k }).collect() }
 pub fn gen_program(r: &mut Rng) -> Vec<PItem> {
   use KeyCode::*;
@@ -307,10 +319,12 @@ pub fn gen_program(r: &mut Rng) -> Vec<PItem> {
     let to_mods: Vec<PMod> = mods.iter().filter(|_| r.below(2) == 0).cloned().collect();
     match r.below(4) {
       0 | 1 => { let x = gen_extra(r, &mods, &keypool, false); p.push(PItem::Single { mods, key: keypool[r.below(keypool.len())], to_mods, to_key: keypool[r.below(keypool.len())], disabled: r.below(3) == 0, x }) },
-      2 => { let letters = ["abc", "a b", "aB", "Hello", "~!", "q", " x", "[]", "xyz?", "1+2"][r.below(10)].to_string(); let x = gen_extra(r, &mods, &keypool, true); p.push(PItem::Row { mods, row: r.below(5), to_mods, letters, disabled: r.below(3) == 0, x }) },
+      2 => { let letters = if r.below(3) == 0 { rand_row_letters(r) } else { ["abc", "a b", "aB", "Hello", "~!", "q", " x", "[]", "xyz?", "1+2"][r.below(10)].to_string() }; let x = gen_extra(r, &mods, &keypool, true); p.push(PItem::Row { mods, row: r.below(5), to_mods, letters, disabled: r.below(3) == 0, x }) },
       _ => { let mut x = gen_extra(r, &mods, &keypool, false); x.absorbing.clear(); p.push(PItem::RepeatOnly { mods, key: keypool[r.below(keypool.len())], disabled: r.below(2) == 0, x }) },
     }
   }
+  // two programs in three are written with a random choice of equivalent spellings (one-element array vs bare element, case of row / repeat names)
+  STYLE.with(|c| c.set(if r.below(3) == 0 { 0 } else { (r.below(1 << 30) as u64) << 20 | 0x9E37 }));
   p
 }
 fn nodup(v: &Vec<KeyCode>) -> bool { (0..v.len()).all(|i| (i + 1..v.len()).all(|j| v[i] != v[j])) }
@@ -429,15 +443,16 @@ fn value_to_extra(v: &serde_json::Value) -> PExtra { if v.is_null() { return PEx
   PExtra { absorbing: value_to_mods(&v["absorbing"]), special: if v["special"].is_null() { None } else { let sp = &v["special"];
     Some(PSpec { mods: value_to_mods(&sp["mods"]), key: kc(&sp["key"]), letters: sp["letters"].as_str().unwrap().to_string(), delay: sp["delay"].as_i64().unwrap() as i32, interval: sp["interval"].as_i64().unwrap() as i32 }) } } }
 pub fn program_value(p: &Vec<PItem>) -> serde_json::Value { prog_to_value(p) }
-fn prog_to_value(p: &Vec<PItem>) -> serde_json::Value { serde_json::Value::Array(p.iter().map(|it| match it {
+fn prog_to_value(p: &Vec<PItem>) -> serde_json::Value { let mut items: Vec<serde_json::Value> = p.iter().map(|it| match it {
   PItem::AliasDef { name, keys } => serde_json::json!({"kind": "alias", "name": name, "keys": keys.iter().map(|k| format!("{:?}", k)).collect::<Vec<_>>()}),
   PItem::Single { mods, key, to_mods, to_key, disabled, x } => serde_json::json!({"kind": "single", "mods": mods_to_value(mods), "key": format!("{:?}", key), "to_mods": mods_to_value(to_mods), "to_key": format!("{:?}", to_key), "disabled": disabled, "x": extra_to_value(x)}),
   PItem::Row { mods, row, to_mods, letters, disabled, x } => serde_json::json!({"kind": "row", "mods": mods_to_value(mods), "row": row, "to_mods": mods_to_value(to_mods), "letters": letters, "disabled": disabled, "x": extra_to_value(x)}),
   PItem::RepeatOnly { mods, key, disabled, x } => serde_json::json!({"kind": "repeat_only", "mods": mods_to_value(mods), "key": format!("{:?}", key), "disabled": disabled, "x": extra_to_value(x)}),
-}).collect()) }
+}).collect(); let st = STYLE.with(|c| c.get()); if st != 0 { items.push(serde_json::json!({"kind": "style", "n": st.to_string()})); } serde_json::Value::Array(items) }
 fn kc(v: &serde_json::Value) -> KeyCode { use std::str::FromStr; KeyCode::from_str(v.as_str().unwrap()).unwrap() }
 fn value_to_mods(v: &serde_json::Value) -> Vec<PMod> { v.as_array().unwrap().iter().map(|m| if let Some(a) = m.get("alias") { PMod::Alias(a.as_u64().unwrap() as usize) } else { PMod::Key(kc(&m["key"])) }).collect() }
-fn value_to_prog(v: &serde_json::Value) -> Vec<PItem> { v.as_array().unwrap().iter().map(|it| match it["kind"].as_str().unwrap() {
+fn value_to_prog(v: &serde_json::Value) -> Vec<PItem> { STYLE.with(|c| c.set(0)); for it in v.as_array().unwrap() { if it["kind"] == "style" { STYLE.with(|c| c.set(it["n"].as_str().unwrap().parse().unwrap())); } }
+  v.as_array().unwrap().iter().filter(|it| it["kind"] != "style").map(|it| match it["kind"].as_str().unwrap() {
   "alias" => PItem::AliasDef { name: it["name"].as_u64().unwrap() as usize, keys: it["keys"].as_array().unwrap().iter().map(kc).collect() },
   "single" => PItem::Single { mods: value_to_mods(&it["mods"]), key: kc(&it["key"]), to_mods: value_to_mods(&it["to_mods"]), to_key: kc(&it["to_key"]), disabled: it["disabled"].as_bool().unwrap(), x: value_to_extra(&it["x"]) },
   "row" => PItem::Row { mods: value_to_mods(&it["mods"]), row: it["row"].as_u64().unwrap() as usize, to_mods: value_to_mods(&it["to_mods"]), letters: it["letters"].as_str().unwrap().to_string(), disabled: it["disabled"].as_bool().unwrap(), x: value_to_extra(&it["x"]) },
